@@ -152,7 +152,7 @@ fn reader(o: &mut Vec<Op>, r: &mut Rng, abs: Word, post: bool, contracts: &[Cont
 /// Ops that succeed on any input and change what flows downstream.
 fn producer(o: &mut Vec<Op>, r: &mut Rng) {
     for _ in 0..r.below(4) {
-        match r.below(9) {
+        match r.below(10) {
             0 => o.push(PUSH(r.range(0, 1000))),
             1 => {
                 // tag-dependent value
@@ -170,6 +170,11 @@ fn producer(o: &mut Vec<Op>, r: &mut Rng) {
                 // fork: every child records its index (and the word it inherited) in its memory
                 let n = r.range(1, 6);
                 o.extend([PUSH(r.range(0, 9)), PUSH(n), COM, PUSH(1), ALOC, STO, COME, POP]);
+            }
+            8 => {
+                // fork whose children consume the word they inherited (each child's stack is a private copy)
+                let n = *r.pick(&[2i64, 5, 16, 64]);
+                o.extend([PUSH(r.range(100, 200)), PUSH(n), COM, POP, PUSH(1), ALOC, STO, PUSH(7), COME, POP]);
             }
             _ => o.extend([PUSH(r.range(1, 4)), ALOC, POP]),
         }
@@ -412,6 +417,11 @@ pub fn gen_scenario(r: &mut Rng, o: &GenOpts) -> Scenario {
                         if !keys.contains(&k) || r.chance(0.05) {
                             keys.push(k);
                         }
+                    }
+                    if r.chance(o.p_overlap.max(0.02)) {
+                        // the same key twice inside one output block
+                        let k = keys[0].clone();
+                        keys.push(k);
                     }
                     let hostile = r.chance(o.hostile_outputs);
                     data_leaf(&mut ops, r, &keys, hostile);
